@@ -204,7 +204,11 @@ class L4Run:
         rec = {"tid": tid, "kind": "l4", "issued": list(self.issued), "delivered": self.delivered(), "goal": bool(quiet),
                "internal": [repr(e)[:120] for e in w.logged] + self.errors + [repr(e)[:100] for s in w.sides.values() for e in s.errors],
                "ends": {}, "pendingUnexpected": 0, "scids": {"L": [], "F": []}, "afterCloseOK": True,
-               "lateListen": self.late_listen is not None, "perSub": self.per_sub()}
+               "lateListen": self.late_listen is not None, "perSub": self.per_sub(),
+               # the other direction of each close: the subchannel a closed is reported lost to a's application once the
+               # peer's CLOSE has come back (it travels - and is re-sent after a loss - like every other record)
+               "closedByOpener": sum(1 for k in self.issued if 0 <= k < len(SCRIPT) and SCRIPT[k][0] == "close"),
+               "lostAtOpener": sum(1 for ev in w.app_events if ev[0] == self.a and ev[2] == "lost")}
         w.close()
         return rec
 
@@ -389,6 +393,26 @@ def replay_sub(tid, states, names_by_step, expected, half):
 
 def finish_sub(run, tid, expected):
     w = run.w
+    # everything still in flight arrives; then every subchannel opened towards a side that listens for its name (and has not
+    # declared the name unexpected) must have appeared there - "at once if a listener exists, or when one is registered later"
+    missing = []
+    try:
+        w.pump()
+        for y, name in sorted((run._name_of_id or {}).items()):
+            p = run.openers.get(y)
+            if p is None:
+                continue
+            sid = getattr(p.transport, "_scid", None)
+            x = "L" if (sid or y) % 2 == 1 else "F"
+            o_ = "F" if x == "L" else "L"
+            real = run.spell(name)
+            exp = (run.expected or {}).get(o_)
+            if real in w.sides[o_].factories and (exp is None or real in exp):
+                a = run.end_proto(sid, "a") if sid is not None else None
+                if a is None or not any(e[0] == "made" for e in a.log):
+                    missing.append("subchannel %s (%s) opened by %s never appeared at %s" % (sid, name, x, o_))
+    except Exception as e:
+        missing.append("settling: %r" % (e,))
     ends = {}
     ids = set(run.openers)
     for side in w.sides.values():
@@ -421,7 +445,7 @@ def finish_sub(run, tid, expected):
                         ("DataForMissingSubchannelError", "CloseForMissingSubchannelError", "DuplicateOpenError")] +
                        [repr(e)[:100] for s in w.sides.values() for e in s.errors] + [x[:120] for x in run.open_failures],
            "ends": ends, "pendingUnexpected": held, "scids": {k: [x for x in v if x is not None] for k, v in run.scids.items()},
-           "afterCloseOK": after_close_ok}
+           "afterCloseOK": after_close_ok, "missingOpens": missing}
     w.close()
     return rec
 
@@ -518,7 +542,7 @@ def public_api_expected_case(tid, expected, opens, listen):
     internal = errors + [x for x in fw.finish() if not x.startswith(benign)] + wrong + ([] if connected else ["public-api case: the two wormholes did not connect"]) + \
         ([] if refused_seen else ["an OPEN outside the declared set was not closed towards its opener"])
     return {"tid": tid, "kind": "sub", "issued": [], "delivered": [], "goal": False, "internal": internal, "ends": ends,
-            "pendingUnexpected": held, "scids": {"L": [], "F": []}, "afterCloseOK": True, "origin": "family:public-api-expected",
+            "pendingUnexpected": held, "scids": {"L": [], "F": []}, "afterCloseOK": True, "missingOpens": [], "origin": "family:public-api-expected",
             "config": "public"}
 
 
